@@ -73,6 +73,12 @@ def canon(t: Any) -> Any:
                 if kd and not keep:
                     keep = (kd[0][1],)
                 return T("method", ("to", recv, keep, ()))
+        if isinstance(x, T) and x.op == "add" and len(x.args) == 2:
+            # adding the integer 0 changes neither value nor dtype (`offset += bias if unused > 0 else 0`)
+            for i_ in (0, 1):
+                z = x.args[i_]
+                if (isinstance(z, int) and not isinstance(z, bool) and z == 0) or (isinstance(z, sp.Integer) and z == 0):
+                    return x.args[1 - i_]
         if isinstance(x, T) and x.op == "call" and x.args[0] == "torch.clamp":
             return T("call", ("torch.clip", x.args[1]))
         if isinstance(x, T) and x.op == "call" and x.args[0] == "torch.randint":
